@@ -454,18 +454,13 @@ def quit_filtered(ix):
             if not callee_is(t, EXEC):
                 continue
             ok = False
-            for d in cb.dom()[bi]:
-                blk = cb.blocks[d]
-                if blk.term["k"] != "switch":
+            qe = C.variant_test_edges(ix, cb, UCICOMMAND, "Quit")
+            for d, targets in qe.items():
+                if d not in cb.dom()[bi]:
                     continue
-                e = sym.operand(blk.term["discr"])
-                if e[0] != "discr":
-                    continue
-                for a in blk.term["arms"]:
-                    if a[0] == quit_idx[0]:
-                        # the Quit edge must not reach the call (possibly through a bool flag: follow one level)
-                        if bi not in quit_edge_reach(cb, sym, d, a[1]):
-                            ok = True
+                # the Quit edge must not reach the call
+                if all(bi not in cb.threaded_reach(x) for x in targets):
+                    ok = True
             if not ok:
                 return False, "call in %s at line %s is not protected by a Quit test" % (ck, t["line"])
     return True, "callers: %s" % sorted(callers)
@@ -639,15 +634,11 @@ def rule_io_and_exits(ctx):
     quit_idx = [int(v["discr"]) for v in adt["variants"] if v["name"] == "Quit"]
     execs = {bi for bi, t in b.calls() if callee_is(t, EXEC)}
     quit_ok = False
-    for blk in b.blocks:
-        if blk.term["k"] == "switch":
-            e = sym.operand(blk.term["discr"])
-            if e[0] == "discr":
-                for a in blk.term["arms"]:
-                    if quit_idx and a[0] == quit_idx[0]:
-                        reach = quit_edge_reach(b, sym, blk.idx, a[1])
-                        if mir.EXIT in reach and not (reach & (parse | execs | {rb})):
-                            quit_ok = True
+    for d, targets in C.variant_test_edges(ix, b, UCICOMMAND, "Quit").items():
+        for x in targets:
+            reach = b.threaded_reach(x)
+            if mir.EXIT in reach and not (reach & (parse | execs | {rb})):
+                quit_ok = True
     ctx.check(quit_ok, "%s:exit-on-quit" % UCI_LOOP, "Quit leaves the loop without reading or executing anything else", b.where(rb),
               bad_what="no exit edge for UCICommand::Quit that avoids further reads")
 
